@@ -17,7 +17,7 @@ EXPLANATION = (
     "R2: squash_time False / 'sum' / 'mean' are the full array / .sum(axis=0) / .mean(axis=0) of the same sparse "
     "accumulation. R3: energy exponent; dimension checks; L1. Not decided: floating-point summation order.")
 RULE_TEXT = "one obligation per (mode, squash) class-pair table, per squash reduction and per dimension check"
-FLOORS = {'C11.R1': 3, 'C11.R2': 3, 'C11.R3': 3}
+FLOORS = {'C11.R1': 3, 'C11.R2': 3, 'C11.R3': 3, 'C11.R5': 2}
 PINNED_EXPECT = [('L1', 'emd.support.ensure_equal_dims', 'numpy.alltrue')]
 
 HOLO = 'emd.spectra.holospectrum'
@@ -29,6 +29,8 @@ def run(ctx):
     ctx.trust('np.digitize classes as in C10; ndarray.reshape is C-ordered (last axis fastest); coo_matrix sums '
               'duplicates; a[1:-1] drops the first and last index')
     rule_fold(ctx)
+    from . import l2
+    ctx.rule(l2.rule_layout, 'C11.R5', [HOLO])
     # calling the routine twice on the same arrays (full, then 'sum', then 'mean') must give consistent outputs:
     # nothing may be computed in place on the caller's arrays
     from ..effects import MutationAnalysis
